@@ -24,6 +24,7 @@ type Config struct {
 	PermuteMaps bool
 	NoRaceCheck bool
 	NoSleep     bool
+	NoCache     bool
 	Overrides  map[string]string
 	SolverTimeoutMs int
 }
@@ -58,6 +59,7 @@ type Stats struct {
 	Deadlocks    int
 	Pruned       int
 	Shortcuts    int
+	CacheHits    int
 }
 
 type Violation struct {
@@ -94,6 +96,7 @@ type Shared struct {
 	sat, unsat int
 	solverTime time.Duration
 	queue      [][]Decision
+	visited    [64]visitedShard
 	idle       int
 	cond       *sync.Cond
 	done       bool
@@ -145,6 +148,9 @@ type Interp struct {
 	traceW     io.Writer
 
 	initPkg  *ssa.Package
+	typeHash map[types.Type]uint64
+	fnHash   map[*ssa.Function]uint64
+	fnInfos  map[*ssa.Function]*fnInfo
 	cancelVC []int
 	sh       *Shared
 	entry    string
@@ -589,6 +595,46 @@ type Explorer struct {
 	traceSched bool
 }
 
+type visitedShard struct {
+	mu sync.Mutex
+	m  map[hash128][]uint64
+}
+
+// visit implements the state cache combined with sleep sets. It returns
+// (prune, covered): prune when the state was seen with a sleep set contained in
+// the current one; otherwise the signatures already covered elsewhere.
+func (sh *Shared) visit(h hash128, sleepSigs []uint64) (bool, []uint64, bool) {
+	s := &sh.visited[h.a%64]
+	s.mu.Lock()
+	defer s.mu.Unlock()
+	if s.m == nil {
+		s.m = map[hash128][]uint64{}
+	}
+	old, seen := s.m[h]
+	if !seen {
+		s.m[h] = append([]uint64(nil), sleepSigs...)
+		return false, nil, false
+	}
+	cur := map[uint64]bool{}
+	for _, x := range sleepSigs {
+		cur[x] = true
+	}
+	var inter []uint64
+	subset := true
+	for _, x := range old {
+		if cur[x] {
+			inter = append(inter, x)
+		} else {
+			subset = false
+		}
+	}
+	if subset {
+		return true, nil, true
+	}
+	s.m[h] = inter
+	return false, old, true
+}
+
 func newShared() *Shared {
 	sh := &Shared{
 		violations: map[string][]*Violation{},
@@ -614,7 +660,8 @@ func (ex *Explorer) newInterp() *Interp {
 		panic(err)
 	}
 	in := &Interp{prog: ex.prog, tc: tc, solver: sv, cfg: ex.cfg, sh: ex.sh, property: ex.property,
-		atoiSeen: map[string]bool{}, overrides: ex.overrides, entry: ex.entry.String()}
+		atoiSeen: map[string]bool{}, overrides: ex.overrides, entry: ex.entry.String(),
+		typeHash: map[types.Type]uint64{}, fnHash: map[*ssa.Function]uint64{}, fnInfos: map[*ssa.Function]*fnInfo{}}
 	in.maxSteps = ex.cfg.MaxSteps
 	if in.maxSteps == 0 {
 		in.maxSteps = 2000000
